@@ -64,7 +64,10 @@ static size_t h9(size_t k, size_t m) { logcall(9, k, m); return k % 4 == 3 ? SIZ
 static size_t h10(size_t k, size_t m) { logcall(10, k, m); (void)m; return k % 8; }
 static size_t h11(size_t k, size_t m) { logcall(11, k, m); return m >= 4 ? modm(k, m) : (k % 2 ? m : 0); }
 static size_t h12(size_t k, size_t m) { logcall(12, k, m); return m <= 4 ? modm(k, m) : (k % 4 == 3 ? m + 1 : modm(k, m)); }
-static cstl_hash_func_t * const fns[] = { cstl_hash_mul, h1, h2, h3, h4, h5, h6, h7, h8, h9, h10, h11, h12 };
+/* out of range by a multiple of 2^32: in range again after a truncation to 32 bits */
+static size_t h13(size_t k, size_t m) { logcall(13, k, m); return k % 4 == 3 ? ((size_t)1 << 32) + modm(k, m) : modm(k, m); }
+static size_t h14(size_t k, size_t m) { logcall(14, k, m); return ((size_t)1 << 63) + modm(k, m); }
+static cstl_hash_func_t * const fns[] = { cstl_hash_mul, h1, h2, h3, h4, h5, h6, h7, h8, h9, h10, h11, h12, h13, h14 };
 #define NFN ((int)(sizeof(fns) / sizeof(fns[0])))
 
 static int fn_id(cstl_hash_func_t * f)
